@@ -39,13 +39,19 @@ type world struct {
 	held []wheld
 }
 
-func snapshotOf(o wobj) string {
+func snapshotOf(o wobj) string { return snapshot(o, true) }
+
+// snapshot renders the observable state; withCompletions adds what the object turns into when filled.
+func snapshot(o wobj, withCompletions bool) string {
 	switch {
 	case o.msg != nil:
 		m := o.msg
-		return fmt.Sprintf("MSG name=%q S%dF%d W=%s dir=%s sid=%d sys=%x hdr=%q str=%q bytes=%x vars=%q type=%s",
-			m.Name(), m.StreamCode(), m.FunctionCode(), m.WaitBit(), m.Direction(), m.SessionID(), m.SystemBytes(), m.Header(), m.String(), m.ToBytes(), m.Variables(), m.Type()) +
-			completions(m.Variables(), func(f map[string]interface{}) string { return m.FillVariables(f).String() })
+		s := fmt.Sprintf("MSG name=%q S%dF%d W=%s dir=%s sid=%d sys=%x hdr=%q str=%q bytes=%x vars=%q type=%s",
+			m.Name(), m.StreamCode(), m.FunctionCode(), m.WaitBit(), m.Direction(), m.SessionID(), m.SystemBytes(), m.Header(), m.String(), m.ToBytes(), m.Variables(), m.Type())
+		if withCompletions {
+			s += completions(m.Variables(), func(f map[string]interface{}) string { return m.FillVariables(f).String() })
+		}
+		return s
 	case o.ctl != nil:
 		return fmt.Sprintf("CTL type=%s bytes=%x", o.ctl.Type(), o.ctl.ToBytes())
 	default:
@@ -54,7 +60,10 @@ func snapshotOf(o wobj) string {
 			mn, mx := a.FillInStringLength()
 			s += fmt.Sprintf(" bounds=%d,%d", mn, mx)
 		}
-		return s + completions(o.item.Variables(), func(f map[string]interface{}) string { return itemString(o.item.FillVariables(f)) })
+		if withCompletions {
+			s += completions(o.item.Variables(), func(f map[string]interface{}) string { return itemString(o.item.FillVariables(f)) })
+		}
+		return s
 	}
 }
 
@@ -458,7 +467,7 @@ func (w *world) invariant() (int, string) {
 		if now != o.snap {
 			return i, fmt.Sprintf("object %d (created by %s) changed:\n was %s\n now %s", i, o.birth, o.snap, now)
 		}
-		if again := snapshotOf(o); again != now {
+		if again := snapshot(o, false); !strings.HasPrefix(now, again) {
 			return i, fmt.Sprintf("object %d: two consecutive observations differ:\n %s\n %s", i, now, again)
 		}
 	}
